@@ -409,20 +409,38 @@ func (c *fsCache) set(key string, entry []byte) error {
 		}
 	}
 	name := c.fn.FileName(key)
-	if err := c.root.MkdirAll(filepath.Dir(name), 0o755); err != nil {
+	dir := filepath.Dir(name)
+	if err := c.root.MkdirAll(dir, 0o755); err != nil {
 		return err
 	}
-	f, err := c.root.Create(name)
+	// Write a temporary file next to the destination and rename it into place,
+	// so that a concurrent Get, a failed write or a killed process never leaves
+	// a partial value under the key.
+	tmp := filepath.Join(dir, tempFilePrefix+rand.Text())
+	f, err := c.root.OpenFile(tmp, os.O_WRONLY|os.O_CREATE|os.O_EXCL, 0o666)
 	if err != nil {
 		return err
 	}
-	defer f.Close()
 	_, err = f.Write(entry)
+	if err == nil {
+		err = f.Sync()
+	}
+	if cerr := f.Close(); err == nil {
+		err = cerr
+	}
+	if err == nil {
+		err = c.root.Rename(tmp, name)
+	}
 	if err != nil {
+		_ = c.root.Remove(tmp)
 		return err
 	}
-	return f.Sync()
+	return nil
 }
+
+// tempFilePrefix marks files that are still being written; '.' is not part of
+// the base64url alphabet, so no key maps to such a name.
+const tempFilePrefix = ".tmp-"
 
 func (c *fsCache) Delete(key string) error {
 	ctx, cancel := context.WithTimeout(context.Background(), c.timeout)
@@ -491,7 +509,7 @@ func (c *fsCache) keys(prefix string) ([]string, error) {
 		if err != nil {
 			return err
 		}
-		if d.IsDir() {
+		if d.IsDir() || strings.HasPrefix(d.Name(), tempFilePrefix) {
 			return nil
 		}
 		key, err := c.fnk.KeyFromFileName(
